@@ -2,7 +2,7 @@
       decimal printing is injective, target paths are distinct, the run is the per-file composition of
       pipeline and writer (loop interchange: tables outside, targets inside = file by file), overwrite
       forgets, and — with the C12 theorems — the rows of every table of every file. *)
-From Coq Require Import ZArith NArith List Bool String Ascii Lia DecimalString DecimalZ Decimal DecimalPos.
+From Coq Require Import ZArith NArith List Bool String Ascii Lia DecimalString DecimalZ DecimalPos.
 From Texel Require Import Gpkg.Model Gpkg.Proofs Cli.Model.
 Import ListNotations.
 Open Scope Z_scope.
@@ -36,7 +36,7 @@ Qed.
 
 (** ** 2. Decimal printing of ids is injective *)
 
-Lemma to_int_not_nil : forall z, Z.to_int z <> Pos Nil /\ Z.to_int z <> Neg Nil.
+Lemma to_int_not_nil : forall z, Z.to_int z <> Decimal.Pos Decimal.Nil /\ Z.to_int z <> Decimal.Neg Decimal.Nil.
 Proof.
   intros [|p|p]; cbn; split; try discriminate; intros H; injection H as H; now apply Unsigned.to_uint_nonnil in H.
 Qed.
@@ -93,7 +93,7 @@ Definition name_ok (n e : str) : Prop := Forall safe_char n /\ (e = [] -> Forall
 
 (** "/" ++ c1 ++ "/" ++ c2 ++ "/" ... : every element followed by a slash *)
 Definition render_dir (rooted : bool) (comps : list str) : str :=
-  (if rooted then [slash] else []) ++ concat (map (fun c => c ++ [slash]) comps).
+  (if rooted then [slash] else []) ++ List.concat (map (fun c => c ++ [slash]) comps).
 
 Lemma take_until_app_noc : forall c a b, ~ In c a -> take_until c (a ++ c :: b) = a.
 Proof.
@@ -185,10 +185,10 @@ Proof.
 Qed.
 
 Lemma split_on_dir : forall comps rest, Forall comp_ok comps ->
-  split_on slash (concat (map (fun c => c ++ [slash]) comps) ++ rest) = comps ++ split_on slash rest.
+  split_on slash (List.concat (map (fun c => c ++ [slash]) comps) ++ rest) = comps ++ split_on slash rest.
 Proof.
   induction comps as [|c comps IH]; intros rest H; [reflexivity|].
-  inversion H as [|? ? [_ [Hc _]] H']; subst. cbn [map concat]. rewrite <- !app_assoc. cbn [app].
+  inversion H as [|? ? [_ [Hc _]] H']; subst. cbn [map List.concat]. rewrite <- !app_assoc. cbn [app].
   rewrite split_on_app, split_on_noc by now apply forall_safe_no_slash. cbn [app]. f_equal. now apply IH.
 Qed.
 
@@ -205,18 +205,16 @@ Proof.
   inversion H; subst. cbn [fold_left rev]. rewrite clean_step_ok, IH, <- app_assoc by assumption. reflexivity.
 Qed.
 
+Lemma join_with_cons : forall c x r, r <> [] -> join_with c (x :: r) = x ++ c :: join_with c r.
+Proof. intros c x [|y r] H; [contradiction|reflexivity]. Qed.
+
 Lemma join_with_render : forall comps f, f <> [] ->
-  join_with slash (comps ++ [f]) = concat (map (fun c => c ++ [slash]) comps) ++ f.
+  join_with slash (comps ++ [f]) = List.concat (map (fun c => c ++ [slash]) comps) ++ f.
 Proof.
   induction comps as [|c comps IH]; intros f Hf; [reflexivity|].
-  cbn [app map concat]. rewrite <- app_assoc. cbn [app].
-  destruct (comps ++ [f]) eqn:E; [destruct comps; discriminate|].
-  cbn [join_with]. rewrite <- E. f_equal. f_equal. now apply IH.
+  cbn [app map List.concat]. rewrite <- app_assoc. cbn [app].
+  rewrite join_with_cons by (destruct comps; discriminate). rewrite IH by assumption. now rewrite <- !app_assoc.
 Qed.
-
-(** the file element of the format: it is a proper path element *)
-Lemma fmt_file_ok : forall n e, name_ok n e -> ext_ok e -> comp_ok (n ++ s_ "_%v" ++ e) -> True.
-Proof. trivial. Qed.
 
 Lemma in_app_fmt : forall (c : ascii) n e, In c (n ++ s_ "_%v" ++ e) ->
   In c n \/ c = "_"%char \/ c = percent \/ c = "v"%char \/ In c e.
@@ -232,54 +230,81 @@ Proof.
 Qed.
 
 (** Clean(Join(dir, file)) = dir ++ file for a directory made of proper elements *)
+Definition dirstr (comps : list str) : str := List.concat (map (fun c => c ++ [slash]) comps).
+
+Lemma path_clean_eq : forall p c0 rest, p = c0 :: rest ->
+  path_clean p =
+  match (if Ascii.eqb c0 slash
+         then slash :: join_with slash (rev (fold_left (clean_step (Ascii.eqb c0 slash)) (split_on slash p) []))
+         else join_with slash (rev (fold_left (clean_step (Ascii.eqb c0 slash)) (split_on slash p) []))) with
+  | [] => [dot]
+  | r => r
+  end.
+Proof. intros; subst; reflexivity. Qed.
+
+Definition file_elem_ok (f : str) : Prop := f <> [] /\ ~ In slash f /\ f <> [dot] /\ f <> [dot; dot].
+
+Lemma clean_step_file : forall r st f, file_elem_ok f -> clean_step r st f = f :: st.
+Proof.
+  intros r st f [H1 [_ [H2 H3]]]. unfold clean_step. apply str_eqb_neq in H1, H2, H3. now rewrite H1, H2, H3.
+Qed.
+
+Lemma clean_step_empty : forall r st, clean_step r st [] = st.
+Proof. reflexivity. Qed.
+
+Lemma fold_dir_file : forall r comps f st, Forall comp_ok comps -> file_elem_ok f ->
+  fold_left (clean_step r) (comps ++ [[]; f]) st = f :: rev comps ++ st.
+Proof.
+  intros r comps f st Hc Hf. rewrite fold_left_app, (clean_fold_ok r comps st Hc).
+  cbn [fold_left]. now rewrite clean_step_empty, clean_step_file.
+Qed.
+
+Lemma split_dir_file : forall comps f, Forall comp_ok comps -> ~ In slash f ->
+  split_on slash (dirstr comps ++ slash :: f) = comps ++ [[]; f].
+Proof.
+  intros comps f Hc Hf. unfold dirstr. rewrite split_on_dir by assumption.
+  cbn [split_on]. rewrite Ascii.eqb_refl. now rewrite split_on_noc.
+Qed.
+
+Lemma dirstr_cons_head : forall c comps rest, comp_ok c ->
+  exists x tl0, dirstr (c :: comps) ++ rest = x :: tl0 /\ x <> slash.
+Proof.
+  intros c comps rest [Hne [Hs _]]. destruct c as [|x c]; [contradiction|].
+  exists x. eexists. split; [unfold dirstr; cbn; reflexivity|]. inversion Hs as [|? ? [Hx _] _]; subst. exact Hx.
+Qed.
+
 Lemma clean_join_spec : forall rooted comps f,
-  Forall comp_ok comps -> f <> [] -> ~ In slash f -> f <> [dot] -> f <> [dot; dot] ->
-  (forall c, hd_error f = Some c -> c <> slash) ->
+  Forall comp_ok comps -> file_elem_ok f ->
   path_join2 (render_dir rooted comps) f = render_dir rooted comps ++ f.
 Proof.
-  intros rooted comps f Hc Hf Hns Hd Hdd Hhd.
-  assert (Hfok : clean_step rooted = clean_step rooted) by reflexivity.
-  assert (Hstep : forall r st, clean_step r st f = f :: st).
-  { intros r st. unfold clean_step. apply str_eqb_neq in Hf, Hd, Hdd. now rewrite Hf, Hd, Hdd. }
-  unfold path_join2.
-  destruct (render_dir rooted comps) as [|c0 dirrest] eqn:Edir.
-  - (* no directory at all *)
-    destruct rooted; [discriminate|]. destruct comps as [|c comps]; [|].
-    + destruct f as [|x f']; [contradiction|]. unfold path_clean.
-      rewrite split_on_noc by assumption. cbn [fold_left]. rewrite Hstep. cbn [rev app join_with].
-      assert (Hx : Ascii.eqb x slash = false). { apply Ascii.eqb_neq. apply Hhd. reflexivity. }
-      rewrite Hx. reflexivity.
-    + exfalso. inversion Hc as [|? ? [Hne _] _]; subst. unfold render_dir in Edir. cbn in Edir.
-      destruct c; [contradiction|discriminate].
-  - destruct f as [|x f'] eqn:Ef; [contradiction|]. rewrite <- Ef in *. rewrite <- Edir.
-    assert (Hfull : path_clean (render_dir rooted comps ++ slash :: f) = render_dir rooted comps ++ f).
-    { unfold path_clean.
-      destruct (render_dir rooted comps ++ slash :: f) as [|c1 rest1] eqn:E1; [destruct (render_dir rooted comps); discriminate|].
-      rewrite <- E1.
-      assert (Hroot : Ascii.eqb c1 slash = rooted).
-      { unfold render_dir in E1. destruct rooted; cbn in E1.
-        - injection E1 as <- _. apply Ascii.eqb_refl.
-        - destruct comps as [|c comps]; [unfold render_dir in Edir; discriminate|].
-          inversion Hc as [|? ? [Hne [Hsafe _]] _]; subst. destruct c as [|y c]; [contradiction|].
-          cbn in E1. injection E1 as <- _. apply Ascii.eqb_neq. inversion Hsafe as [|? ? [Hy _] _]; subst. exact Hy. }
-      rewrite Hroot. unfold render_dir. destruct rooted.
-      + cbn [app]. rewrite (split_on_app slash [] _). cbn [split_on app].
-        rewrite <- app_assoc. cbn [app]. rewrite split_on_dir by assumption.
-        cbn [split_on]. rewrite Ascii.eqb_refl. rewrite (split_on_noc slash f) by assumption.
-        cbn [fold_left]. unfold clean_step at 2. cbn [str_eqb orb].
-        rewrite fold_left_app, clean_fold_ok by assumption. cbn [fold_left].
-        unfold clean_step at 2. cbn [str_eqb orb]. rewrite Hstep. rewrite app_nil_r.
-        cbn [rev]. rewrite rev_involutive, join_with_render by assumption.
-        destruct (concat (map (fun c => c ++ [slash]) comps) ++ f); reflexivity.
-      + cbn [app]. rewrite <- app_assoc. cbn [app]. rewrite split_on_dir by assumption.
-        cbn [split_on]. rewrite Ascii.eqb_refl. rewrite (split_on_noc slash f) by assumption.
-        rewrite fold_left_app, clean_fold_ok by assumption. cbn [fold_left].
-        unfold clean_step at 2. cbn [str_eqb orb]. rewrite Hstep. rewrite app_nil_r.
-        cbn [rev]. rewrite rev_involutive, join_with_render by assumption.
-        destruct (concat (map (fun c => c ++ [slash]) comps) ++ f) eqn:E2; [|reflexivity].
-        destruct comps; [unfold render_dir in Edir; discriminate|].
-        cbn in E2. inversion Hc as [|? ? [Hne _] _]; subst. destruct s; [contradiction|discriminate]. }
-    subst f. exact Hfull.
+  intros rooted comps f Hc Hf. assert (Hf' := Hf). destruct Hf' as [Hf1 [Hf2 [Hf3 Hf4]]].
+  unfold render_dir. fold (dirstr comps).
+  destruct rooted.
+  - (* "/" ++ dir ++ "/" ++ f *)
+    cbn [app]. unfold path_join2. destruct f as [|x f'] eqn:Ef; [contradiction|]. rewrite <- Ef in *.
+    rewrite (path_clean_eq _ slash (dirstr comps ++ slash :: f)) by reflexivity.
+    rewrite Ascii.eqb_refl. cbn [app split_on]. rewrite Ascii.eqb_refl.
+    rewrite split_dir_file by assumption. cbn [fold_left]. rewrite clean_step_empty.
+    rewrite fold_dir_file by assumption. rewrite app_nil_r. cbn [rev]. rewrite rev_involutive.
+    rewrite join_with_render by assumption. reflexivity.
+  - cbn [app]. destruct comps as [|c comps].
+    + (* no directory: Clean(f) *)
+      cbn. unfold path_join2. destruct f as [|x f'] eqn:Ef; [contradiction|]. rewrite <- Ef in *.
+      rewrite (path_clean_eq f x f') by assumption.
+      assert (Hx : Ascii.eqb x slash = false).
+      { apply Ascii.eqb_neq. intros ->. apply Hf2. rewrite Ef. now left. }
+      rewrite Hx. rewrite split_on_noc by assumption. cbn [fold_left]. rewrite clean_step_file by assumption.
+      cbn [rev app join_with]. rewrite Ef. reflexivity.
+    + inversion Hc as [|? ? Hc1 Hc2]; subst.
+      destruct (dirstr_cons_head c comps [] Hc1) as [x [tl0 [Ehd Hx]]]. rewrite app_nil_r in Ehd.
+      unfold path_join2. rewrite Ehd. destruct f as [|y f'] eqn:Ef; [contradiction|]. rewrite <- Ef, <- Ehd in *.
+      destruct (dirstr_cons_head c comps (slash :: f) Hc1) as [x' [tl1 [Ehd1 Hx']]].
+      rewrite (path_clean_eq _ x' tl1) by assumption.
+      assert (Hxs : Ascii.eqb x' slash = false) by now apply Ascii.eqb_neq.
+      rewrite Hxs. rewrite split_dir_file by assumption. rewrite fold_dir_file by assumption.
+      rewrite app_nil_r. cbn [rev]. rewrite rev_involutive. rewrite join_with_render by assumption.
+      destruct (dirstr (c :: comps) ++ f) eqn:E2; [|reflexivity].
+      exfalso. destruct (dirstr_cons_head c comps f Hc1) as [? [? [E3 _]]]. congruence.
 Qed.
 
 Lemma count_char_app : forall c a b, count_char c (a ++ b) = (count_char c a + count_char c b)%nat.
@@ -305,7 +330,7 @@ Proof.
   intros rooted comps H. unfold render_dir. intros Hin. apply in_app_or in Hin. destruct Hin as [Hin|Hin].
   - destruct rooted; [destruct Hin as [Hin|[]]; discriminate|destruct Hin].
   - induction comps as [|c comps IH]; [destruct Hin|]. inversion H as [|? ? [_ [Hs _]] H']; subst.
-    cbn [map concat] in Hin. rewrite <- app_assoc in Hin. apply in_app_or in Hin. destruct Hin as [Hin|Hin].
+    cbn [map List.concat] in Hin. rewrite <- app_assoc in Hin. apply in_app_or in Hin. destruct Hin as [Hin|Hin].
     + now apply forall_safe_no_percent in Hin.
     + cbn in Hin. destruct Hin as [Hin|Hin]; [discriminate|]. now apply IH.
 Qed.
@@ -322,8 +347,8 @@ Proof.
   assert (Hdir : render_dir rooted comps = [] \/ exists d', render_dir rooted comps = d' ++ [slash]).
   { unfold render_dir. destruct comps as [|c comps] using rev_ind.
     - destruct rooted; [right; exists []; reflexivity|now left].
-    - right. rewrite map_app, concat_app. cbn [map concat]. rewrite app_nil_r.
-      exists ((if rooted then [slash] else []) ++ concat (map (fun c0 => c0 ++ [slash]) comps) ++ c).
+    - right. rewrite map_app, concat_app. cbn [map List.concat]. rewrite app_nil_r.
+      exists ((if rooted then [slash] else []) ++ List.concat (map (fun c0 => c0 ++ [slash]) comps) ++ c).
       now rewrite <- !app_assoc. }
   unfold inject, inject_format.
   rewrite path_split_spec by assumption.
@@ -337,9 +362,7 @@ Proof.
   assert (Hf3 : f <> [dot] /\ f <> [dot; dot]).
   { assert (Hu : In "_"%char f) by (unfold f; apply in_or_app; right; now left).
     split; intros E; rewrite E in Hu; cbn in Hu; intuition discriminate. }
-  assert (Hf4 : forall c, hd_error f = Some c -> c <> slash).
-  { intros c Hc0 ->. apply Hf2. destruct f; [discriminate|]. injection Hc0 as ->. now left. }
-  rewrite clean_join_spec by tauto.
+  rewrite clean_join_spec by (unfold file_elem_ok; tauto).
   (* Sprintf on a format with exactly one '%' *)
   unfold sprintf_v.
   assert (Hcount : count_char percent (render_dir rooted comps ++ f) = 1%nat).
@@ -417,32 +440,226 @@ Section Composition.
       split; [split; reflexivity|]. unfold Cli.Model.table_into at 1. rewrite Ep, Ew. cbn [cbind]. exact H2c.
   Qed.
 
-  Lemma run_tables_per_target_conv : forall fl ids src tgts,
-    (forall t, In t tgts -> exists d', cfoldM (table_into fl ids (fst (fst t))) src (snd t) = COk d') ->
-    exists tgts', cfoldM (run_table fl ids) src tgts = COk tgts'.
+  (** *** file system *)
+  Lemma fs_lookup_remove_same : forall p fs, fs_lookup p (fs_remove p fs) = None.
   Proof.
-    intros fl ids src; induction src as [|tf src IH]; intros tgts H; cbn [cfoldM]; [eauto|].
-    unfold Cli.Model.run_table at 1.
-    destruct (pipeline (snap (snap_config_of fl)) ids (snd tf)) as [msgs|] eqn:Ep.
-    - assert (Hall : forall t, In t tgts -> exists d1, lift (write_features (fl_pagesize fl) (fst tf) (snd t) (route (fst (fst t)) msgs)) = COk d1
-                       /\ exists d', cfoldM (table_into fl ids (fst (fst t))) src d1 = COk d').
-      { intros t Hin. destruct (H t Hin) as [d' Hd']. cbn [cfoldM] in Hd'. unfold Cli.Model.table_into at 1 in Hd'.
-        rewrite Ep in Hd'. destruct (lift (write_features (fl_pagesize fl) (fst tf) (snd t) (route (fst (fst t)) msgs))) as [d1|]; [|discriminate].
-        cbn [cbind] in Hd'. eauto. }
-      assert (Hm : exists tgts1, cmapM (fun t : target => let '(id, path, d) := t in
-                 cdo d' <- lift (write_features (fl_pagesize fl) (fst tf) d (route id msgs)); COk (id, path, d')) tgts = COk tgts1 /\
-                 forall t1, In t1 tgts1 -> exists d', cfoldM (table_into fl ids (fst (fst t1))) src (snd t1) = COk d').
-      { clear H. induction tgts as [|[[id path] d] tgts IHt]; [exists []; split; [reflexivity|intros ? []]|].
-        destruct (Hall (id, path, d)) as [d1 [Hd1 Hrest]]; [now left|]. cbn in Hd1.
-        destruct IHt as [tgts1 [Hm1 Hm2]]; [intros t Hin; apply Hall; now right|].
-        exists ((id, path, d1) :: tgts1). cbn [cmapM]. rewrite Hd1. cbn [cbind]. rewrite Hm1. cbn [cbind].
-        split; [reflexivity|]. intros t1 [<-|Hin]; [exact Hrest|now apply Hm2]. }
-      destruct Hm as [tgts1 [Hm1 Hm2]]. rewrite Hm1. cbn [cbind]. now apply IH.
-    - destruct tgts as [|t tgts].
-      + (* no target at all: the pipeline is not even reached per file; the run still calls it *)
-        exfalso. (* cannot happen under the hypothesis only if there is a target; handled by the caller *)
-        admit_no_targets.
-      + destruct (H t (or_introl eq_refl)) as [d' Hd']. cbn [cfoldM] in Hd'. unfold Cli.Model.table_into at 1 in Hd'.
-        rewrite Ep in Hd'. discriminate.
-  Abort.
+    induction fs as [|[q d] fs IH]; cbn; [reflexivity|].
+    destruct (str_eqb q p) eqn:E; [exact IH|]. cbn. now rewrite E.
+  Qed.
+
+  Lemma fs_lookup_remove_other : forall p q fs, q <> p -> fs_lookup q (fs_remove p fs) = fs_lookup q fs.
+  Proof.
+    induction fs as [|[r d] fs IH]; intros H; cbn; [reflexivity|].
+    destruct (str_eqb r p) eqn:E.
+    - apply str_eqb_eq in E. subst r. rewrite IH by assumption.
+      assert (F : str_eqb p q = false) by (apply str_eqb_neq; congruence). now rewrite F.
+    - cbn. destruct (str_eqb r q); [reflexivity|now apply IH].
+  Qed.
+
+  Lemma fs_lookup_write_same : forall p d fs, fs_lookup p (fs_write p d fs) = Some d.
+  Proof. intros; unfold fs_write; cbn. now rewrite str_eqb_refl. Qed.
+
+  Lemma fs_lookup_write_other : forall p q d fs, q <> p -> fs_lookup q (fs_write p d fs) = fs_lookup q fs.
+  Proof.
+    intros p q d fs H. unfold fs_write; cbn.
+    assert (F : str_eqb p q = false) by (apply str_eqb_neq; congruence). rewrite F.
+    now apply fs_lookup_remove_other.
+  Qed.
+
+  Definition tpath_of (t : target) : str := snd (fst t).
+
+  Lemma write_back_other : forall tgts fs q, ~ In q (map tpath_of tgts) ->
+    fs_lookup q (write_back fs tgts) = fs_lookup q fs.
+  Proof.
+    induction tgts as [|[[id path] d] tgts IH]; intros fs q H; [reflexivity|].
+    cbn [write_back fold_left]. fold (write_back (fs_write path d fs) tgts).
+    rewrite IH by (intros Hin; apply H; now right).
+    apply fs_lookup_write_other. intros ->. apply H. now left.
+  Qed.
+
+  Lemma write_back_lookup : forall tgts fs id path d, NoDup (map tpath_of tgts) -> In (id, path, d) tgts ->
+    fs_lookup path (write_back fs tgts) = Some d.
+  Proof.
+    induction tgts as [|[[id0 path0] d0] tgts IH]; intros fs id path d Hnd Hin; [destruct Hin|].
+    cbn [map] in Hnd. inversion Hnd as [|? ? Hnotin Hnd']; subst.
+    cbn [write_back fold_left]. fold (write_back (fs_write path0 d0 fs) tgts).
+    destruct Hin as [E|Hin].
+    - injection E as -> -> ->. rewrite write_back_other by exact Hnotin. apply fs_lookup_write_same.
+    - now apply (IH _ id).
+  Qed.
+
+  (** the last write to a path decides: independent of what the file system held before *)
+  Lemma write_back_target_indep : forall tgts fs fs' q, In q (map tpath_of tgts) ->
+    fs_lookup q (write_back fs tgts) = fs_lookup q (write_back fs' tgts).
+  Proof.
+    induction tgts as [|[[id path] d] tgts IH]; intros fs fs' q H; [destruct H|].
+    cbn [write_back fold_left]. fold (write_back (fs_write path d fs) tgts) (write_back (fs_write path d fs') tgts).
+    destruct (in_dec (list_eq_dec ascii_dec) q (map tpath_of tgts)) as [Hin|Hnot].
+    - now apply IH.
+    - rewrite !write_back_other by exact Hnot. destruct H as [H|H]; [|contradiction].
+      cbn in H. subst q. now rewrite !fs_lookup_write_same.
+  Qed.
+
+  Lemma nodupz_NoDup : forall l, nodupz l = true -> NoDup l.
+  Proof.
+    induction l as [|x l IH]; cbn; intros H; [constructor|].
+    apply andb_prop in H. destruct H as [H1 H2]. constructor; [|now apply IH].
+    intros Hin. assert (memz x l = true).
+    { clear - Hin. induction l as [|y l IH]; [destruct Hin|]. cbn. destruct Hin as [->|Hin].
+      - now rewrite Z.eqb_refl.
+      - rewrite IH by assumption. now rewrite orb_true_r. }
+    now rewrite H in H1.
+  Qed.
+
+  Lemma NoDup_map_inj_on : forall A B (f : A -> B) l,
+    NoDup l -> (forall x y, In x l -> In y l -> f x = f y -> x = y) -> NoDup (map f l).
+  Proof.
+    induction l as [|a l IH]; intros Hnd Hinj; [constructor|].
+    inversion Hnd as [|? ? Hnotin Hnd']; subst. cbn [map]. constructor.
+    - intros Hin. apply in_map_iff in Hin. destruct Hin as [b [Hb Hin]].
+      apply Hnotin. rewrite <- (Hinj b a); auto using in_eq, in_cons.
+    - apply IH; auto. intros x y Hx Hy. apply Hinj; now right.
+  Qed.
+
+  (** *** opening the targets *)
+  Definition tpath (tgt : str) (id : Z) : str := match inject tgt id with Some p => p | None => [] end.
+
+  Lemma init_targets_spec : forall fl tgt ids fs acc fs1 tgts,
+    NoDup ids ->
+    cfoldM (init_target sfeat fl tgt) ids (fs, acc) = COk (fs1, tgts) ->
+    (forall id, In id ids -> inject tgt id <> None) /    tgts = acc ++ map (fun id => (id, tpath tgt id, start_content fl fs (tpath tgt id))) ids /    (forall q, ~ In q (map (tpath tgt) ids) -> fs_lookup q fs1 = fs_lookup q fs).
+  Proof.
+    intros fl tgt; induction ids as [|id ids IH]; intros fs acc fs1 tgts Hnd H; cbn [cfoldM] in H.
+    - injection H as <- <-. repeat split; auto. intros ? []. now rewrite app_nil_r.
+    - inversion Hnd as [|? ? Hnotin Hnd']; subst. unfold init_target at 1 in H.
+      destruct (inject tgt id) as [path|] eqn:Ei; [|discriminate]. cbn [cbind] in H.
+      apply IH in H; [|assumption]. destruct H as [Hall [Ht Hq]].
+      assert (Hp : tpath tgt id = path) by (unfold tpath; now rewrite Ei).
+      split; [|split].
+      + intros id' [<-|Hin]; [congruence|now apply Hall].
+      + rewrite Ht, <- app_assoc. cbn [app map]. f_equal. rewrite Hp. f_equal.
+        * f_equal. unfold start_content. destruct (fl_overwrite fl).
+          -- now rewrite fs_lookup_remove_same.
+          -- reflexivity.
+        * apply map_ext_in. intros id' Hin. f_equal.
+          assert (Hne : tpath tgt id' <> path).
+          { unfold tpath. destruct (inject tgt id') as [p'|] eqn:E'; [|now apply Hall in Hin].
+            intros ->. apply Hnotin. now rewrite (target_paths_distinct _ _ _ _ Ei E'). }
+          unfold start_content. destruct (fl_overwrite fl); [reflexivity|].
+          rewrite fs_lookup_write_other by exact Hne. reflexivity.
+      + intros q Hnot. rewrite Hq by (intros Hin; apply Hnot; now right).
+        assert (Hne : q <> path) by (intros ->; apply Hnot; left; exact Hp).
+        rewrite fs_lookup_write_other by exact Hne.
+        destruct (fl_overwrite fl); [now apply fs_lookup_remove_other|reflexivity].
+  Qed.
+
+  Lemma tpath_inj_on : forall tgt ids, (forall id, In id ids -> inject tgt id <> None) ->
+    forall x y, In x ids -> In y ids -> tpath tgt x = tpath tgt y -> x = y.
+  Proof.
+    intros tgt ids Hall x y Hx Hy H. unfold tpath in H.
+    destruct (inject tgt x) as [px|] eqn:Ex; [|now apply Hall in Hx].
+    destruct (inject tgt y) as [py|] eqn:Ey; [|now apply Hall in Hy].
+    subst py. eapply target_paths_distinct; eauto.
+  Qed.
+
+  (** *** cli_composition *)
+  Theorem cli_composition : forall (a : args) src fs0 fs',
+    a_source a = Some src ->
+    cli_run a fs0 = COk fs' ->
+    NoDup (a_ids a) /    (forall id, In id (a_ids a) -> exists path d,
+        inject (a_target a) id = Some path /        file_content (a_flags a) src (a_ids a) id (start_content (a_flags a) fs0 path) = COk d /        fs_lookup path fs' = Some d) /    (forall q, (forall id, In id (a_ids a) -> inject (a_target a) id <> Some q) -> fs_lookup q fs' = fs_lookup q fs0).
+  Proof.
+    intros a src fs0 fs' Hsrc H. unfold Cli.Model.cli_run in H. rewrite Hsrc in H.
+    destruct (a_tms_ok a); [|discriminate]. cbn [negb] in H.
+    destruct (nodupz (a_ids a)) eqn:End; [|discriminate]. cbn [negb] in H.
+    apply nodupz_NoDup in End.
+    destruct (cfoldM (init_target sfeat (a_flags a) (a_target a)) (a_ids a) (fs0, [])) as [[fs1 tgts0]|] eqn:Ei; [|discriminate].
+    cbn [cbind] in H.
+    destruct (init_targets_spec _ _ _ _ _ _ _ End Ei) as [Hall [Ht0 Hq]]. cbn [app] in Ht0.
+    destruct (cmapM (create_in sfeat (map fst src)) tgts0) as [tgts1|] eqn:Ec; [|discriminate]. cbn [cbind] in H.
+    destruct (cfoldM (run_table (a_flags a) (a_ids a)) src tgts1) as [tgts2|] eqn:Er; [|discriminate]. cbn [cbind] in H.
+    injection H as <-.
+    apply cmapM_Forall2 in Ec. apply run_tables_per_target in Er.
+    (* every final target: same id and path as opened, content = the per-file composition *)
+    assert (HF : Forall2 (fun id (t2 : target) => t2 = (id, tpath (a_target a) id, snd t2) /               file_content (a_flags a) src (a_ids a) id (start_content (a_flags a) fs0 (tpath (a_target a) id)) = COk (snd t2))
+               (a_ids a) tgts2).
+    { subst tgts0. revert tgts1 tgts2 Ec Er. generalize (a_ids a) at 1 3 as l.
+      induction l as [|id l IH]; intros tgts1 tgts2 Ec Er.
+      - inversion Ec; subst. inversion Er; subst. constructor.
+      - cbn [map] in Ec. inversion Ec as [|? t1 ? l1 Hc1 Hcr]; subst. inversion Er as [|? t2 ? l2 Hr1 Hrr]; subst.
+        constructor; [|now apply (IH l1)].
+        unfold create_in in Hc1.
+        destruct (lift (create_tables (start_content (a_flags a) fs0 (tpath (a_target a) id)) (map fst src))) as [d1|] eqn:Ed1; [|discriminate].
+        cbn [cbind] in Hc1. injection Hc1 as <-. destruct Hr1 as [[Hs1 Hs2] Hr1]. cbn in Hs1, Hs2, Hr1.
+        destruct t2 as [[id2 path2] d2]. cbn in *. subst. split; [reflexivity|].
+        unfold Cli.Model.file_content. rewrite Ed1. cbn [cbind]. exact Hr1. }
+    assert (Hpaths : map tpath_of tgts2 = map (tpath (a_target a)) (a_ids a)).
+    { clear - HF. induction HF as [|id t2 l l2 [Ht _] _ IH]; [reflexivity|]. cbn [map]. rewrite IH. f_equal. now rewrite Ht. }
+    split; [exact End|]. split.
+    - intros id Hin.
+      destruct (inject (a_target a) id) as [path|] eqn:Einj; [|now apply Hall in Hin].
+      assert (Hp : tpath (a_target a) id = path) by (unfold tpath; now rewrite Einj).
+      assert (Hex : exists t2, In t2 tgts2 /\ t2 = (id, path, snd t2) /                 file_content (a_flags a) src (a_ids a) id (start_content (a_flags a) fs0 path) = COk (snd t2)).
+      { clear - HF Hin Hp. induction HF as [|id0 t2 l l2 [Ht Hc] _ IH]; [destruct Hin|].
+        destruct Hin as [->|Hin].
+        - exists t2. rewrite Hp in *. split; [now left|]. split; assumption.
+        - destruct (IH Hin) as [t [H1 H2]]. exists t. split; [now right|exact H2]. }
+      destruct Hex as [t2 [Hin2 [Ht2 Hc2]]]. exists path, (snd t2). split; [reflexivity|]. split; [exact Hc2|].
+      apply (write_back_lookup tgts2 fs1 id).
+      + rewrite Hpaths. apply NoDup_map_inj_on; [exact End|]. now apply tpath_inj_on.
+      + now rewrite <- Ht2.
+    - intros q Hnot.
+      assert (Hq' : ~ In q (map (tpath (a_target a)) (a_ids a))).
+      { intros Hin. apply in_map_iff in Hin. destruct Hin as [id [Hid Hin]]. apply (Hnot id Hin).
+        unfold tpath in Hid. destruct (inject (a_target a) id); [congruence|now apply Hall in Hin]. }
+      rewrite write_back_other by (now rewrite Hpaths). now apply Hq.
+  Qed.
+
+  (** *** overwrite_forgets: with -overwrite the target files do not depend on what was there *)
+  Lemma init_targets_overwrite : forall fl tgt ids fs fs' acc fs1 tgts,
+    fl_overwrite fl = true ->
+    cfoldM (init_target sfeat fl tgt) ids (fs, acc) = COk (fs1, tgts) ->
+    exists fs1', cfoldM (init_target sfeat fl tgt) ids (fs', acc) = COk (fs1', tgts).
+  Proof.
+    intros fl tgt; induction ids as [|id ids IH]; intros fs fs' acc fs1 tgts Ho H; cbn [cfoldM] in *.
+    - injection H as <- <-. eauto.
+    - unfold init_target at 1 in H. unfold init_target at 1.
+      destruct (inject tgt id) as [path|]; [|discriminate]. cbn [cbind] in *.
+      rewrite Ho in *. rewrite fs_lookup_remove_same in *. eapply IH; eauto.
+  Qed.
+
+  Lemma overwrite_success : forall (a : args) fs0 fs0' fs1,
+    fl_overwrite (a_flags a) = true -> cli_run a fs0 = COk fs1 -> exists fs1', cli_run a fs0' = COk fs1'.
+  Proof.
+    intros a fs0 fs0' fs1 Ho H. unfold Cli.Model.cli_run in *.
+    destruct (a_tms_ok a); [|discriminate]. cbn [negb] in *.
+    destruct (a_source a) as [src|]; [|discriminate].
+    destruct (nodupz (a_ids a)); [|discriminate]. cbn [negb] in *.
+    destruct (cfoldM (init_target sfeat (a_flags a) (a_target a)) (a_ids a) (fs0, [])) as [[fsa tgts0]|] eqn:Ei; [|discriminate].
+    cbn [cbind] in H.
+    destruct (init_targets_overwrite _ _ _ _ fs0' _ _ _ Ho Ei) as [fsb Ei']. rewrite Ei'. cbn [cbind].
+    destruct (cmapM (create_in sfeat (map fst src)) tgts0) as [tgts1|]; [|discriminate]. cbn [cbind] in *.
+    destruct (cfoldM (run_table (a_flags a) (a_ids a)) src tgts1) as [tgts2|]; [|discriminate]. cbn [cbind] in *.
+    eauto.
+  Qed.
+
+  Theorem overwrite_forgets : forall (a : args) fs0 fs0' fs1,
+    fl_overwrite (a_flags a) = true ->
+    cli_run a fs0 = COk fs1 ->
+    exists fs1', cli_run a fs0' = COk fs1' /      forall id path, In id (a_ids a) -> inject (a_target a) id = Some path ->
+        fs_lookup path fs1 = fs_lookup path fs1' /\ fs_lookup path fs1 <> None.
+  Proof.
+    intros a fs0 fs0' fs1 Ho H.
+    destruct (overwrite_success a fs0 fs0' fs1 Ho H) as [fs1' H']. exists fs1'. split; [exact H'|].
+    intros id path Hin Hinj.
+    assert (Hsrc : exists src, a_source a = Some src).
+    { unfold Cli.Model.cli_run in H. destruct (a_tms_ok a); [|discriminate]. destruct (a_source a); [eauto|discriminate]. }
+    destruct Hsrc as [src Hsrc].
+    destruct (cli_composition a src fs0 fs1 Hsrc H) as [_ [Hc _]].
+    destruct (cli_composition a src fs0' fs1' Hsrc H') as [_ [Hc' _]].
+    destruct (Hc id Hin) as [p1 [d1 [Hp1 [Hf1 Hl1]]]]. destruct (Hc' id Hin) as [p2 [d2 [Hp2 [Hf2 Hl2]]]].
+    rewrite Hinj in Hp1, Hp2. injection Hp1 as <-. injection Hp2 as <-.
+    unfold start_content in Hf1, Hf2. rewrite Ho in Hf1, Hf2. rewrite Hf1 in Hf2. injection Hf2 as <-.
+    rewrite Hl1, Hl2. split; [reflexivity|discriminate].
+  Qed.
 End Composition.
